@@ -14,12 +14,17 @@ impl CloseSyscall for Kernel {
         0
     }
 }
-fn del_event_stub(_fd: c_int) -> std::io::Result<()> { Ok(()) }
+/// removing the readiness interest may fail (with several event loops the descriptor is registered with one of
+/// them only; the others answer ENOENT): either answer, the cached limits must not survive the close
+fn del_event_stub(_fd: c_int) -> std::io::Result<()> { if kani::any() { Ok(()) } else { Err(std::io::ErrorKind::NotFound.into()) } }
+/// the hooked close is not told what kind of descriptor it closes: either answer
+fn is_socket_any(_fd: c_int) -> bool { kani::any() }
 
 #[kani::proof]
 #[kani::unwind(4)]
 #[kani::stub(crate::syscall::unix::get_time_limit, lim_stub)]
 #[kani::stub(crate::net::EventLoops::del_event, del_event_stub)]
+#[kani::stub(crate::syscall::is_socket, is_socket_any)]
 fn c19_close_step() {
     any_state_with_inv();
     let f: usize = kani::any(); kani::assume(f < 2);
